@@ -17,9 +17,15 @@ CompNames == {"gz", "bz2", "lzma", "xz"}
 
 Lenient(r) ==
     LET s1 == r.s1  sub == r.ev.sub  acc == Accepted(s1, sub) IN
-    (IF OddPaths(r.s0) \/ OddPaths(s1) THEN {"OddPath"} ELSE {})
+    \* odd entry paths (".", "..", empty components) in the PRIOR Manifests are a lenient zone; odd paths
+    \* that the update itself wrote are judged like any other entry
+    (IF OddPaths(r.s0) THEN {"OddPath"} ELSE {})
     \cup (IF SubIgnored(r.s0, sub, Accepted(r.s0, <<>>)) \/ SubIgnored(s1, sub, acc) THEN {"SubIgnored"} ELSE {})
     \cup (IF \E n \in NodeSet(s1) : n.k \in {"other", "dangling"} THEN {"SpecialFile"} ELSE {})
+    \* a file that is not a Manifest occupies a name that a re-compressed Manifest of the same directory
+    \* would have to take (e.g. garbage `d/Manifest` next to a registered `d/Manifest.lzma`)
+    \cup (IF \E x \in MfSet(r.s0) : \E y \in MfSet(r.s0) : x.p # y.p /\ x.lp = y.lp /\ (~x.ok \/ ~x.reg) /\ y.reg
+          THEN {"ManifestNameCollision"} ELSE {})
 
 C03(r) ==
     LET s == r.s1  sub == r.ev.sub  acc == Accepted(s, sub)
@@ -71,6 +77,11 @@ C13(r) ==
                    /\ \A x \in before(m) : x.comp = "plain"
              THEN {"C13.NewFormat"} ELSE {})
        \cup (IF s0.top = <<"Manifest">> /\ s1.top # <<"Manifest">> THEN {"C13.TopCompressed"} ELSE {})
+       \* a re-compressed Manifest keeps its logical name: every Manifest in use before is in use after,
+       \* under its logical path with or without a compression suffix (its directory still existing)
+       \cup (IF \E x \in MfSet(s0) : x.reg /\ x.ok /\ Kind(s1, Dir(x.p)) = "dir"
+                   /\ ~\E m \in MfSet(s1) : m.reg /\ m.lp = x.lp
+             THEN {"C13.LogicalManifestLost"} ELSE {})
        \cup (IF \E m \in wr : \E n \in MfSet(s1) :
                    /\ n.ok /\ n.p # m.p /\ n.lp = m.lp
                    /\ Cardinality(before(m)) < 2
